@@ -737,3 +737,117 @@ func genC13Any(g *Gen) {
 		}
 	}
 }
+
+// genC13Sessions: "session" cases of bitmap.Next/held - one bitmap, a list of queries run in order on ONE
+// []uint64 (twice over), so that state a call leaves behind for the next one (a scan hint or cache keyed on
+// the slice, a scratch word, a write to the caller's slice) is exercised.  Called FIRST by genC13, both tiers.
+//   exhaustive part: every bitmap of 4 words (thorough: also 5) over the word patterns {0, 1, 1<<63}
+//   with at most two non-zero words (thorough, 4 words: also all-ones, and all 81 over {0,1,1<<63}) x every ORDERED PAIR
+//   of queries (NextOne / PrevOne) whose i and end lie at a word boundary or next to one, run consecutively
+//   (case for query a = the session a b a b' a ... over the queries b from a on: pairs (a,b) and (b,a)).
+//   sampled part: 5..7 words (zero-word gaps of 2..6 words), random sessions over the same query set.
+func genC13Sessions(g *Gen) {
+	for nw := 4; nw <= 7; nw++ {
+		// the bitmaps: at most two non-zero words over {1, 1<<63} (thorough, 4 words: and all-ones);
+		// thorough, 4 words: also all 81 bitmaps over {0, 1, 1<<63}
+		pats := []uint64{1, 1 << 63}
+		if g.Thorough && nw == 4 {
+			pats = append(pats, ^uint64(0))
+		}
+		seen := map[string]bool{}
+		var bms [][]uint64
+		addbm := func(bm []uint64) {
+			if k := fmt.Sprint(bm); !seen[k] {
+				seen[k] = true
+				bms = append(bms, append([]uint64{}, bm...))
+			}
+		}
+		addbm(make([]uint64, nw))
+		for a := 0; a < nw; a++ {
+			for _, pa := range pats {
+				bm := make([]uint64, nw)
+				bm[a] = pa
+				addbm(bm)
+				for b := a + 1; b < nw; b++ {
+					for _, pb := range pats {
+						bm[b] = pb
+						addbm(bm)
+						bm[b] = 0
+					}
+				}
+			}
+		}
+		if g.Thorough && nw == 4 {
+			three := []uint64{0, 1, 1 << 63}
+			for c := 0; c < 81; c++ {
+				bm := make([]uint64, nw)
+				for k, x := 0, c; k < nw; k, x = k+1, x/3 {
+					bm[k] = three[x%3]
+				}
+				addbm(bm)
+			}
+		}
+		// the queries: i, end in {64k-1, 64k, 64k+1}
+		n := 64 * nw
+		var pos []int
+		for k := 0; k <= nw; k++ {
+			for _, d := range []int{-1, 0, 1} {
+				if p := 64*k + d; 0 <= p && p <= n {
+					pos = append(pos, p)
+				}
+			}
+		}
+		var qs []string
+		for kind := 0; kind < 2; kind++ {
+			for _, i := range pos {
+				for _, e := range pos {
+					if i < e && i < n {
+						qs = append(qs, L(Int(kind), Int(i), Int(e)))
+					}
+				}
+			}
+		}
+		exhaustive := nw == 4 || (g.Thorough && nw == 5)
+		for _, bm := range bms {
+			w := c13Rle(bm)
+			nz := 0
+			for _, x := range bm {
+				if x != 0 {
+					nz++
+				}
+			}
+			key := ""
+			if nz > 0 {
+				key = fmt.Sprintf("sess/nw%d/nz%d/exh%v", nw, nz, exhaustive)
+			}
+			if exhaustive {
+				for ai, a := range qs {
+					// a b a b' a ... over the b from a on: the consecutive pairs (a,b) and (b,a)
+					seq := make([]string, 0, 2*len(qs))
+					for _, b := range qs[ai:] {
+						seq = append(seq, a, b)
+					}
+					seq = append(seq, a)
+					g.Stat("session-pairs")
+					g.Do("bitmap.Next/held", L(w, L(seq...)), key)
+				}
+			} else {
+				seq := make([]string, 0, 3000)
+				for k, m := 0, g.N(600, 3000); k < m; k++ {
+					q := qs[g.R.Intn(len(qs))]
+					seq = append(seq, q)
+					if g.R.Intn(4) == 0 { // the same query again
+						seq = append(seq, q)
+					}
+				}
+				g.Stat("session-random")
+				g.Do("bitmap.Next/held", L(w, L(seq...)), key)
+			}
+		}
+	}
+	if g.Thorough {
+		g.Exhaust = append(g.Exhaust, "sessions on one held slice: all 81 bitmaps of 4 words over {0,1,1<<63}, every bitmap of 4 words over {0,1,1<<63,all-ones} and of 5 words over {0,1,1<<63} with at most two non-zero words, x every ordered pair of NextOne/PrevOne queries with i, end in {64k-1,64k,64k+1}, run consecutively")
+	} else {
+		g.Exhaust = append(g.Exhaust, "sessions on one held slice: every bitmap of 4 words over {0,1,1<<63} with at most two non-zero words x every ordered pair of NextOne/PrevOne queries with i, end in {64k-1,64k,64k+1}, run consecutively")
+	}
+}
